@@ -348,7 +348,7 @@ def spec(c: Ctx):
         _, ti, p, sti, before, deep = op
         if c.typed(ti) and not c.typed(sti):
             return ("refuse",)
-        if c.typed(ti) != c.typed(sti) or not (before is None or before is True or before is False or before == 0 or isinstance(before, dict)):
+        if c.typed(ti) != c.typed(sti):
             return ("any",)
         f = c.forest(ti)
         sf = f if sti == ti else c.forest(sti)
@@ -570,6 +570,11 @@ def check(step, w=None):
     got = after[ti][0]
     used = set()
     if not same_modulo_new(exp, got, set(step["new_ids"]), used):
+        if brief(got) == brief(exp).replace("None", "?") or brief(got) == brief(exp):
+            gp = {x[0]: x[1] for x, _ in walk(got)}
+            for x, _ in walk(exp):
+                if x[0] is not None and gp.get(x[0]) != x[1]:
+                    return f"effect: {name}: node {x[0]} has payload [data, data_id, kind, meta] = {gp.get(x[0])} but the documented effect gives {x[1]}"
         return f"effect: {name}: tree is {brief(got)} but the documented effect gives {brief(exp)}"
     want = s[2]
     if want == "new":
